@@ -62,6 +62,12 @@ class Profile:
         self.actions = list(range(32))
         self.ctx_pool = list(range(6))
         self.first_frame_hold = 0.0
+        self.route_p = 0.0             # probability that an act block uses a non-default construction route
+        self.each_p = 0.0              # probability of emod / econd lines in a block
+        self.preset_p = 0.0            # probability that an item is a preset
+        self.inject_first_p = 0.0
+        self.mask_choices = [1, 2, 4, 8, 3, 6, 2, 2, 1]
+        self.mbtns = [0, 1]
         for k, v in kw.items():
             if not hasattr(self, k):
                 raise KeyError(k)
@@ -85,11 +91,11 @@ class AppGen:
             kind = "key"
         mask = 0
         if kind in ("key", "mbtn", "motion", "wheel") and r.random() < self.p.modmask_p:
-            mask = r.choice([1, 2, 4, 8, 3, 6, 2, 2, 1])
+            mask = r.choice(self.p.mask_choices)
         if kind == "key":
             return f"key {r.choice(self.p.keys)} {mask}"
         if kind == "mbtn":
-            return f"mbtn {r.choice([0, 1])} {mask}"
+            return f"mbtn {r.choice(self.p.mbtns)} {mask}"
         if kind == "motion":
             return f"motion {mask}"
         if kind == "wheel":
@@ -188,14 +194,45 @@ class AppGen:
                     order.insert(r.randint(1, len(order)), r.choice(order))
                 for a in order:
                     lines.append(f"act {a}")
+                    route = 0
+                    if r.random() < p.route_p:
+                        route = r.choice([1, 2, 3, 4, 5])
+                        lines.append(f"route {route}")
                     for _ in range(self.ri(p.n_amods)):
                         lines.append(f"amod {self.fresh_id()} {self.mod_spec(acts)}")
                     for _ in range(self.ri(p.n_aconds)):
                         lines.append(f"acond {self.fresh_id()} {self.cond_spec(acts)}")
-                    for _ in range(self.ri(p.n_inputs)):
+                    if r.random() < p.each_p:
+                        for _ in range(r.randint(0, 2)):
+                            lines.append(f"emod {self.fresh_id()} {self.mod_spec(acts)}")
+                        for _ in range(r.randint(0, 1)):
+                            lines.append(f"econd {self.fresh_id()} {self.cond_spec(acts)}")
+                    n_items = self.ri(p.n_inputs)
+                    if route in (1, 2):
+                        n_items = min(n_items, 8)
+                    for _ in range(n_items):
+                        if route not in (4, 5) and r.random() < p.preset_p:
+                            kind = r.choice(["cardinal", "cardinal", "bidir", "stick"]) if pads_used else r.choice(["cardinal", "bidir"])
+                            def km():
+                                k = r.choice(p.keys)
+                                m = r.choice([0, 0] + p.mask_choices[:2]) if r.random() < p.modmask_p else 0
+                                self.bound_inputs.append(f"key {k} {m}")
+                                return f"{k}:{m}"
+                            if kind == "cardinal":
+                                lines.append("preset cardinal " + " ".join(km() for _ in range(4)))
+                            elif kind == "bidir":
+                                lines.append("preset bidir " + " ".join(km() for _ in range(2)))
+                            else:
+                                side = r.choice([0, 1])
+                                self.bound_inputs.append(f"padaxis {2 * side}")
+                                self.bound_inputs.append(f"padaxis {2 * side + 1}")
+                                lines.append(f"preset stick {side}")
+                            continue
                         spec = self.input_spec(pads_used)
                         self.bound_inputs.append(spec)
                         lines.append(f"in {spec}")
+                        if route in (4, 5):
+                            continue
                         for _ in range(self.ri(p.n_imods)):
                             lines.append(f"imod {self.fresh_id()} {self.mod_spec(acts)}")
                         for _ in range(self.ri(p.n_iconds)):
@@ -290,7 +327,9 @@ class AppGen:
         lines = [f"scenario {name}"]
         lines += self.config(pads_used)
         ops = []
-        if r.random() < p.inject_events_p:
+        if r.random() < p.inject_first_p:
+            ops.append("inject first")
+        elif r.random() < p.inject_events_p:
             ops.append("inject events")
         for g in pads_used:
             ops.append(f"pad+ {g}")
